@@ -40,6 +40,7 @@ func extraSpecs() []*PropertySpec {
 		{ID: "C16", Rules: []string{"CONTACT-REFRESH"}, Decided: "a voter in contact with the leader (any non-stale AppendEntries, also a rejected one) refreshes lastContact, which is what makes it ignore vote requests"},
 		{ID: "C16", Rules: []string{"HANDLER-DEMOTE"}, Decided: "a (pre)candidate that accepts a message from the leader of its own or a later term becomes a follower before it answers: otherwise its next election timeout counts as a won prevote and it raises its term unasked"},
 		{ID: "C02", Rules: []string{"HANDLER-DEMOTE"}, Decided: "a candidate that recognises the leader of its term stops campaigning in that term"},
+		{ID: "C16", Rules: []string{"COUNT-VOTES"}, Decided: "a prevote is won only by a quorum counted within ONE round (a counter local to the round, one count per peer): grants of successive rounds of a partitioned minority must not add up"},
 		{ID: "C16", Rules: []string{"PREVOTE-TOKEN"}, Decided: "a campaign raises the term only on the strength of a prevote won for this attempt (a token set by a prevote quorum and spent by the increment): a candidate whose election timed out asks again"},
 		{ID: "C06", Rules: []string{"RECORD-OFFSET"}, Decided: "the persistent log agrees with the in-memory one after a conflict was repaired: Truncate cuts the file by the entry's Offset, so every entry the log keeps carries the position of its own record"},
 		{ID: "C01", Rules: []string{"IS-HANDLER"}, Decided: "a follower keeps its log across a snapshot installation only if its entry at the snapshot's last index has the snapshot's last term (otherwise the state machine is restored and the log discarded): a stale suffix that merely reaches that index is never adopted, committed and applied"},
